@@ -60,7 +60,8 @@ def run_property(prop, tier):
     if prop == "C11":
         return solver_level("C11", tier, "model_checking", sc.corpus_C11)
     if prop == "C18":
-        return solver_level("C18", tier, "model_checking", sc.corpus_C18, with_liveness=True)
+        from harness import c18
+        return c18.run(tier)
     if prop == "C19":
         from harness import c19
         return c19.run(tier)
